@@ -373,6 +373,7 @@ pub fn run_c10(a: &Args) {
     let mut rng = Rng::new(a.seed);
     let mut cases = vec![];
     let mut slow_logins = 0;
+    let mut jfields = vec![];
     while cases.len() < a.cases {
         let mut plan = gen_plan(&mut rng);
         plan.intent = *rng.pick(&[2, 3]);
@@ -404,6 +405,10 @@ pub fn run_c10(a: &Args) {
         }
         let stored = oracle::sends(&o1).iter().find_map(|p| match p { crate::conn::decode::CbPacket::StoreCookie { key, payload } if key == b"passage:authentication" => Some(payload.clone()), _ => None });
         cases.push(case_of(&o1, why, format!("first:{}:{}:{}", if secret.is_some() { "secret" } else { "nosecret" }, if stored.is_some() { "issued" } else { "none" }, reach(&o1))));
+        // the cookie as issued holds the vouched name and the chosen target as the model's string tokens (serde_json's writer, not a hand-made one)
+        if let (Some(payload), Ok(p)) = (&stored, &sc.verdicts.auth) { if payload.len() > 32 {
+            jfields.push(Case { request: format!("c10.jfield payload={} key={} s={}", hex(&payload[32..]), hex(b"user_name"), hex(p.name.as_bytes())), observed: "present".into(), oracle: None, class: "jfield:user_name".into() });
+        } }
         // second connection: reconnect with what was stored, Transfer intent, same IP
         if let Some(payload) = stored {
             let mut plan2 = plan.clone();
@@ -428,6 +433,31 @@ pub fn run_c10(a: &Args) {
             }
             if !oracle::calls(&o2, "call:auth:").is_empty() { why2.push("second connection re-authenticated".into()); }
             cases.push(case_of(&o2, why2, format!("second:{}", reach(&o2))));
+        }
+    }
+    cases.append(&mut jfields);
+    // the quoting layer of the cookies' JSON (model: Json/Str.lean, theorems: Props/C10Json.lean) against serde_json, the
+    // writer and reader the cookies go through: texts with quotes, backslashes, control bytes, injection attempts, multi-byte
+    // UTF-8; then hostile token bodies (stray and unknown escapes, \u00XX well- and ill-formed, raw control bytes, early quotes)
+    {
+        let n_txt = (a.cases / 2).max(150);
+        const PIECES: &[&str] = &["a", "Notch", "\"", "\\", "/", "\n", "\r", "\t", "\u{8}", "\u{c}", "\u{0}", "\u{1}", "\u{1f}", "\u{7f}", " ", "ü", "€", "😀", "\u{2028}", "\",\"user_id\":\"", "\\u0041", "\\\"", "}", "{", ":", ",", "\\n"];
+        for i in 0..n_txt {
+            let t: String = if i < PIECES.len() { PIECES[i].to_string() } else { (0..rng.range(0, 7)).map(|_| *rng.pick(PIECES)).collect() };
+            let w = serde_json::to_vec(&t).expect("serde_json writes a string");
+            let r = serde_json::from_slice::<String>(&w).ok();
+            let mut why = vec![];
+            if r.as_deref() != Some(t.as_str()) { why.push(format!("serde_json does not read {t:?} back from its own token")); }
+            cases.push(Case { request: format!("c10.jstr s={}", hex(t.as_bytes())), observed: format!("w={} r={}", hex(&w), r.map_or("bad".to_string(), |r| format!("ok:{}", hex(r.as_bytes())))),
+                oracle: if why.is_empty() { None } else { Some(why.join("; ")) }, class: format!("jstr:{}", if t.bytes().any(|b| b < 0x20 || b == b'"' || b == b'\\') { "escaped" } else { "plain" }) });
+        }
+        const BODY: &[&[u8]] = &[b"a", b"\\\"", b"\\\\", b"\\/", b"\\b", b"\\f", b"\\n", b"\\r", b"\\t", b"\\u0041", b"\\u004a", b"\\u004A", b"\\u0000", b"\\u001f", b"\\u007f", b"\\u00", b"\\u00g1", b"\\u", b"\\", b"\\x", b"\\a", b"\\0", b"\"", b"\n", b"\t", b"\x01", b"\x1f", b"\x7f", b" ", b"/", b"u", b"\\U0041"];
+        for i in 0..n_txt {
+            let b: Vec<u8> = if i < BODY.len() { BODY[i].to_vec() } else { (0..rng.range(0, 6)).flat_map(|_| rng.pick(BODY).to_vec()).collect() };
+            let mut tok = vec![b'"']; tok.extend(&b); tok.push(b'"');
+            let r = serde_json::from_slice::<String>(&tok).ok();
+            cases.push(Case { request: format!("c10.jscan b={}", hex(&b)), observed: r.as_ref().map_or("bad".to_string(), |r| format!("ok:{}", hex(r.as_bytes()))), oracle: None,
+                class: format!("jscan:{}", if r.is_some() { "accepted" } else { "refused" }) });
         }
     }
     finish("c10", a, cases);
